@@ -38,6 +38,9 @@ def main():
     results = {}
     for name in names:
         d = os.path.join(SEEDED, name)
+        if not os.path.exists(os.path.join(d, 'meta.json')):
+            print(name, 'no such seeded change')
+            continue
         meta = json.load(open(os.path.join(d, 'meta.json')))
         wt = tempfile.mkdtemp(prefix='seed_', dir='/tmp')
         os.rmdir(wt)
